@@ -7,7 +7,19 @@ JOURNAL_TB = [
     "times as Unix seconds (all times the journal handles have zero nanoseconds); fmt %d as Gtfs.intToDec",
 ]
 
+HASH_TB = [
+    "translated on every run (goext/gen_hash.go): the bodies of hasher.trip / hasher.vehicle into encoder combinators (Gen/HashSchema.lean); the translator is validated on every run by comparing the generated encoder's bytes with the byte stream the real Hash methods write into a recording hash.Hash",
+    "encoding/binary.Write (fixed-width little-endian), bytes.Buffer and the hash.Hash passed in are trusted; the helper bodies string/stringPtr/timePtr/hashNumberPtr/flush/number are pinned textually by the translator",
+    "fields are compared as unsigned representations (two's complement, IEEE bit patterns, Unix seconds)",
+]
+
 PROPS = {
+    "C13": {
+        "module": "GtfsVerif.Props.C13",
+        "trusted_base": HASH_TB,
+        "partial": [],
+        "assumptions": ["string lengths and update counts below 2^64 (always true of Go values)"],
+    },
     "C14": {
         "module": "GtfsVerif.Props.C14",
         "trusted_base": JOURNAL_TB,
@@ -17,6 +29,11 @@ PROPS = {
 }
 
 MANIFEST_TEXT = {
+    "C13": {
+        "text": "The encoder model is regenerated from hash.go on every run; Lean proves, for all pairs of trips (vehicles), that the hash input streams are equal iff all data fields are equal: prefix-injectivity of the generated combinator expression by instance resolution, and injectivity of the generated field tuple (every data field is written). The generated encoder is compared byte for byte with the real Hash output, and pair oracles (one-field differences, nil vs zero, string boundary shift, update count, presentation-only differences) run on the implementation.",
+        "note": "Trusted: Lean kernel, the hash-body translator (validated by byte comparison each run), encoding/binary and the supplied hash.Hash. The digest function itself (collisions of e.g. SHA-256) is out of scope: the property is about the hash input.",
+        "technique": "Lean 4 proof (prefix-injective encoder combinators, instance resolution) over a model regenerated from hash.go + byte-stream correspondence",
+    },
     "C14": {
         "text": "Theorems over the journal model for all stop-time lists, updates and histories: the update shape (marked-past prefix of the old list followed by exactly the update's stops), no drop before the first updated stop, the shape invariant over every reachable state of BuildJournal's loop by induction over the feed list (via the per-UID closed form of one feed), mark stability. The model is tied to journal.go by comparing every prefix of thousands of generated histories with the real BuildJournal, and the statement itself is checked on the implementation by an oracle.",
         "note": "Trusted: Lean kernel (axioms propext, Classical.choice, Quot.sound), the correspondence harness and its generators. The Go journal code is modelled (hand-written) rather than verified; the model/implementation tie is differential.",
